@@ -2,6 +2,7 @@ package main
 
 import (
 	"fmt"
+	"google.golang.org/protobuf/reflect/protoreflect"
 	"net/url"
 	"regexp"
 	"strings"
@@ -44,6 +45,11 @@ func runC03(cfg *vh.Config) error {
 	}
 	em := &emitter{cf: &vh.CasesFile{Header: envHeader(targets), Type: "deccase", Check: "dec_check"}, res: res, perShd: 250}
 	distinct := vh.Distinct{}
+	// the schema conditions of the theorems, once per environment
+	for _, t := range targets {
+		em.add("CEnv "+t.Name, "environment", map[string]any{"target": t.Env.Root}, map[string]any{"env": t.Name})
+		em.caseNo++
+	}
 	r := cfg.R
 	byName := map[string]*target{}
 	for _, t := range targets {
@@ -449,9 +455,68 @@ func runC03(cfg *vh.Config) error {
 		}
 	}
 
+	// ---- stream 6b: j5 Any values: the stored j5_json is json.Compact of the text of the "value" member,
+	// byte for byte (member order, repeated members, escapes and number spellings as written)
+	nAny := cfg.Scale(120, 2000)
+	for i := 0; i < nAny; i++ {
+		if tripped() {
+			break
+		}
+		t := vh.Pick(r, []*target{byName["env_full"], byName["env_wide"]})
+		raw := codecgen.RawJSON(r, r.Range(1, 3))
+		want, err := codecgen.CompactJSON(raw)
+		if err != nil {
+			continue
+		}
+		tn := vh.Pick(r, []string{"test.schema.v1.Bar", "x", "a.b.C", ""})
+		sp := func() string {
+			if r.Chance(75) {
+				return ""
+			}
+			return vh.Pick(r, []string{" ", "\n", "  "})
+		}
+		typ := fmt.Sprintf(`"!type"%s:%s%q`, sp(), sp(), tn)
+		val := fmt.Sprintf(`"value"%s:%s%s`, sp(), sp(), raw)
+		body := typ + sp() + "," + sp() + val
+		if r.Chance(40) {
+			body = val + sp() + "," + sp() + typ
+		}
+		doc := []byte(`{` + sp() + `"j5any"` + sp() + `:` + sp() + `{` + sp() + body + sp() + `}` + sp() + `}`)
+		o, ran := dec(t, doc, "any-payload")
+		if !ran {
+			continue
+		}
+		distinct.Add(t.Name + string(doc))
+		res.Count("any-payload")
+		res.Count("any-payload-outcome:" + o.Kind)
+		input := map[string]any{"target": t.Env.Root, "json": short(doc)}
+		switch o.Kind {
+		case "panic":
+			res.Fail(vh.Failure{Case: em.caseNo, Stream: "any-payload", Sig: "C03 decoder panics in " + o.Site, Clause: "decoding succeeds or is rejected with an error", Input: input, Got: o.Panic})
+		case "err":
+			if tn != "" {
+				res.Fail(vh.Failure{Case: em.caseNo, Stream: "any-payload", Sig: "C03 any value rejected", Clause: "every non-null member is stored with exactly the value it denotes", Input: input, Got: o.Err})
+			}
+		case "ok":
+			got, gotType, found := anyPayload(o.Msg)
+			switch {
+			case o.Msg == nil:
+				res.Count("any-payload not judged: message not transferable")
+			case !found:
+				res.Fail(vh.Failure{Case: em.caseNo, Stream: "any-payload", Sig: "C03 any value not stored", Clause: "every non-null member is stored with exactly the value it denotes", Input: input, Got: "field j5any unset", Want: want})
+			case got != want:
+				res.Fail(vh.Failure{Case: em.caseNo, Stream: "any-payload", Sig: "C03 any value stored differs from the text of the member (json.Compact)", Clause: "every non-null member is stored with exactly the value it denotes", Input: input, Got: got, Want: want})
+			case gotType != tn:
+				res.Fail(vh.Failure{Case: em.caseNo, Stream: "any-payload", Sig: "C03 any type name stored differs from the \"!type\" member", Clause: "every non-null member is stored with exactly the value it denotes", Input: input, Got: gotType, Want: tn})
+			}
+		}
+		em.add(decCase(t, doc, o), "any-payload", input, map[string]any{"kind": o.Kind, "err": o.Err})
+		em.caseNo++
+	}
+
 	// ---- stream 7: timestamp texts, valid in every accepted form and near misses: the model of
 	// time.Parse(time.RFC3339, .) against the real function (the theorems about timestamps assume they agree)
-	nTime := cfg.Scale(600, 6000)
+	nTime := cfg.Scale(400, 6000)
 	fixedTimes := []string{"", "Z", "2020-01-01T00:00:00Z", "2020-01-01T00:00:00z", "2020-01-01t00:00:00Z", "2020-01-01 00:00:00Z", "2020-01-01T00:00:00", "2020-01-01T00:00Z", "2020-01-01",
 		"2020-01-01T24:00:00Z", "2020-01-01T23:59:60Z", "2016-12-31T23:59:60Z", "2020-01-01T1:02:03Z", "2020-01-01T1:2:3Z", "2020-01-01T01:02:03.Z", "2020-01-01T01:02:03,5Z", "2020-01-01T01:02:03.1234567891234Z",
 		"2020-01-01T00:00:00+24:00", "2020-01-01T00:00:00+24:60", "2020-01-01T00:00:00+25:00", "2020-01-01T00:00:00-00:61", "2020-01-01T00:00:00+0000", "2020-01-01T00:00:00+00", "2020-01-01T00:00:00 00:00",
@@ -477,7 +542,7 @@ func runC03(cfg *vh.Config) error {
 	}
 
 	// ---- stream 8: decimal texts: the model of decimal.NewFromString / String() (lib/Decimal.v) against the library
-	nDec := cfg.Scale(500, 4000)
+	nDec := cfg.Scale(300, 4000)
 	for i := 0; i < nDec; i++ {
 		s := codecgen.DecimalText(r)
 		term, ok := codecgen.DecimalTerm(s)
@@ -498,6 +563,24 @@ func runC03(cfg *vh.Config) error {
 	res.Evaluations = em.caseNo
 	res.Distinct = len(distinct) - 1
 	return em.finish(cfg)
+}
+
+// anyPayload reads the j5any field of a decoded message: (j5_json, type_name, present).
+func anyPayload(m protoreflect.Message) (string, string, bool) {
+	if m == nil {
+		return "", "", false
+	}
+	fd := m.Descriptor().Fields().ByJSONName("j5any")
+	if fd == nil || !m.Has(fd) {
+		return "", "", false
+	}
+	a := m.Get(fd).Message()
+	jf := a.Descriptor().Fields().ByName("j5_json")
+	tf := a.Descriptor().Fields().ByName("type_name")
+	if jf == nil || tf == nil {
+		return "", "", false
+	}
+	return string(a.Get(jf).Bytes()), a.Get(tf).String(), true
 }
 
 func firstWord(s string) string {
